@@ -1,6 +1,7 @@
 package props
 
 import (
+	"bufio"
 	"bytes"
 	"errors"
 	"fmt"
@@ -305,7 +306,7 @@ func (p c18) Run(t *testing.T, c *Case, s Sched, keepLog bool) *Obs {
 			cfgs = append(cfgs, rng.Intn(c18Configs))
 		}
 	}
-	kinds := []string{"fail", "short", "chunk", "failfull", "fail-sw"}
+	kinds := []string{"fail", "short", "chunk", "failfull", "fail-sw", "fail-bufio"}
 	if c.Writer.Kind != "all" {
 		kinds = []string{c.Writer.Kind}
 	}
@@ -350,6 +351,11 @@ func (p c18) Run(t *testing.T, c *Case, s Sched, keepLog bool) *Obs {
 					w.Plan.Kind = "fail"
 					dst = gosim.SimStringWriter{SimWriter: w}
 				}
+				if kind == "fail-bufio" {
+					// the caller hands over its own small *bufio.Writer in front of the failing writer
+					w.Plan.Kind = "fail"
+					dst = bufio.NewWriterSize(w, 16)
+				}
 				live.Calls++
 				err, pn, st := safePrint(cfg, dst, T)
 				what := fmt.Sprintf("writer %s after %d of %d bytes", kind, k, L)
@@ -360,6 +366,19 @@ func (p c18) Run(t *testing.T, c *Case, s Sched, keepLog bool) *Obs {
 				if w.Fired > 0 {
 					live.Fired++
 					o.Faults["writer-"+kind]++
+				}
+				if kind == "fail-bufio" {
+					// what is still in the caller's buffer is the caller's business; but a failure of the underlying
+					// writer that happened DURING Fprint must be reported by Fprint
+					if w.Fired > 0 && err == nil {
+						add("write-error-lost", fmt.Sprintf("%s behind the caller's 16-byte bufio.Writer: the writer failed during Fprint, Fprint returned nil (config %d)", what, ci), narrow(ci, kind, k))
+					} else if w.Fired > 0 && !errors.Is(err, gosim.ErrInjected) {
+						add("write-error-replaced", fmt.Sprintf("%s behind the caller's bufio.Writer: Fprint returned %v (config %d)", what, err, ci), narrow(ci, kind, k))
+					} else if w.Fired == 0 && err != nil {
+						add("spurious-write-error", fmt.Sprintf("%s behind the caller's bufio.Writer (no fault reached): err=%v (config %d)", what, err, ci), narrow(ci, kind, k))
+					}
+					checkTree("a print with "+what, ci, kind, k)
+					continue
 				}
 				switch {
 				case kind == "chunk":
